@@ -291,3 +291,64 @@ DRIVERS = [
     Driver('C06/B4.chains', cases_chains, oracle_chains, nchunks=8,
            rule='dependency chains of depth 1..60 ending in an unknown function / a Python-level error / a cycle, failures half-way, and chains whose links go through IF / NOT / AND (lazy), SUM and one-cell ranges, and chains on which every level reads the level below twice (shared precedents): time and message size of the report', bound='depth <= 60'),
 ]
+
+
+# ---- several evaluators at work at once: the evaluation path belongs to one evaluator ---------------------------------------------------
+def cases_nested(tier, seed):
+    for depth in (1, 2, 3):
+        for same_address in (True, False):
+            for how in ('nested', 'thread'):
+                yield dict(depth=depth, same=same_address, how=how)
+
+
+def oracle_nested(c):
+    """An acyclic workbook whose A1 asks, through a user function, for a cell of ANOTHER (acyclic) workbook evaluated by that workbook's own
+    evaluator - the same address in both when `same`; or two threads, each with its own workbook and evaluator, the second evaluating while
+    the first is inside its formula.  No cycle report may appear; real cycles are still reported."""
+    import threading
+    import xlcalculator
+    from drivers.common import build_model, observe
+    inner_cells = {'A1': '=B1+1', 'B1': 41}
+    addr = 'Sheet1!A1'
+    try:
+        if c['how'] == 'nested':
+            evs = []
+            for level in range(c['depth'] + 1):
+                cells = dict(inner_cells) if level == c['depth'] else {('A1' if c['same'] else f'C{level + 1}'): '=EXTERNAL()+1', 'B1': 0}
+                evs.append(xlcalculator.Evaluator(build_model(cells)))
+            for level in range(c['depth']):
+                nxt = evs[level + 1]
+                target = addr if (c['same'] or level + 1 == c['depth']) else f'Sheet1!C{level + 2}'
+                evs[level].namespace['EXTERNAL'] = (lambda e, t: (lambda: e.evaluate(t)))(nxt, target)
+            first = addr if c['same'] else 'Sheet1!C1'
+            obs = observe(evs[0].evaluate(first))
+            exp = ('num', float(42 + c['depth']))
+            return obs == exp, (exp, 'no cycle report: the other workbooks are acyclic'), obs
+        inside, go_on, result = threading.Event(), threading.Event(), {}
+        ev1 = xlcalculator.Evaluator(build_model({'A1': '=WAIT()+1', 'B1': 0}))
+        ev2 = xlcalculator.Evaluator(build_model({('A1' if c['same'] else 'C1'): '=B1+1', 'B1': 41}))
+
+        def WAIT():
+            inside.set()
+            go_on.wait(10)
+            return 1
+        ev1.namespace['WAIT'] = WAIT
+        t = threading.Thread(target=lambda: result.setdefault('one', observe(ev1.evaluate(addr))))
+        t.start()
+        inside.wait(10)
+        try:
+            obs2 = observe(ev2.evaluate(addr if c['same'] else 'Sheet1!C1'))
+        finally:
+            go_on.set()
+            t.join(10)
+        ok = obs2 == ('num', 42.0) and result.get('one') == ('num', 2.0)
+        return ok, ('42 and 2: two evaluators at work at once do not see each other', ), (obs2, result.get('one'))
+    except Exception as ex:     # noqa
+        return False, 'a value (acyclic workbooks)', f'raise {type(ex).__name__}: {str(ex)[:200]}'
+
+
+DRIVERS.append(Driver('C06/B4.several-evaluators', cases_nested, oracle_nested, nchunks=2, exhaustive=True,
+                      rule='an acyclic workbook reaching, through a user function in the namespace, a cell of 1-3 other acyclic workbooks each evaluated by its own '
+                           'Evaluator (same address in all of them, or different ones); and two threads with their own workbook and evaluator, the second '
+                           'evaluating while the first is inside its formula: never a cycle report',
+                      bound='nesting depth 3, two threads'))
